@@ -22,7 +22,7 @@ def main():
         if r.returncode == 0:
             for p in props:
                 t = time.time()
-                env = dict(os.environ, VERIF_REPO=wt)
+                env = dict(os.environ, VERIF_REPO=wt, VERIF_BUILD=os.path.join(VERIF, ".build", "seeded"))
                 c = sh([os.path.join(VERIF, "check"), p], cwd=VERIF, env=env)
                 lines = [l for l in c.stdout.splitlines() if l.startswith("VIOLATION") or l.startswith("  problem") or l.startswith(p + " tier")]
                 res["checks"][p] = dict(exit=c.returncode, caught=(c.returncode == 1 and any(l.startswith("VIOLATION") for l in lines)),
